@@ -478,9 +478,8 @@ def ref_form(b):
 NEG_KEY = "negative-content-length-treated-as-readable"
 
 
-def classify(cfg, o, got, acc):
-    c = parse_cl(cfg["cl"])
-    if c is not None and c < 0 and not cfg["seekable"]:
+def classify(cfg, o, got, acc, neg=False):
+    if neg:
         return NEG_KEY      # one root cause: is_body_readable accepts a negative length (over-read, body made seekable ...)
     sk = ":seekable-input" if cfg["seekable"] else ""
     exp = acc[0] if acc else None
@@ -515,6 +514,8 @@ def oracle_history(cfg, hist, final_check=True):
             continue
         r = reqs[i]
         s = ss[i]
+        # the original request, still on a stream whose declared length is negative
+        neg = (not cfg["seekable"]) and c0 is not None and c0 < 0 and i == 0 and s.mode == "none"
         new = None
         try:
             if o == "body":
@@ -581,7 +582,7 @@ def oracle_history(cfg, hist, final_check=True):
                 return ("overread:no-content-length", "%s: %d bytes pulled from wsgi.input although there is neither "
                         "CONTENT_LENGTH nor wsgi.input_terminated" % (where, pos))
         if isinstance(got, fw.Err) and got != DISC:
-            return ("%s:exception:%s" % (o, got.name), "%s raised %s" % (where, got.name))
+            return (NEG_KEY if neg else "%s:exception:%s" % (o, got.name), "%s raised %s" % (where, got.name))
         # ---- the answer
         if o in ("settext", "setjson"):
             b = a.encode("utf-8") if o == "settext" else json.dumps(a, separators=(",", ":")).encode("utf-8")
@@ -606,14 +607,14 @@ def oracle_history(cfg, hist, final_check=True):
                                (o == "freadinto" and len(got) == a) or (o == "fread1" and (len(got) > 0 or a == 0))
                         ok = full and rest.startswith(got)
                     if not ok:
-                        return (classify(cfg, o, got, [DISC]), "%s: %r on a stream shorter than CONTENT_LENGTH" % (where, got))
+                        return (classify(cfg, o, got, [DISC], neg), "%s: %r on a stream shorter than CONTENT_LENGTH" % (where, got))
                     s.cur = s.cur + len(got) if isinstance(got, bytes) else len(s.body)
                     continue
                 if want is None:
                     ok = isinstance(got, bytes) and rest.startswith(got) and len(got) <= max(a, 0) and \
                         (len(got) > 0 or a == 0 or not rest)
                     if not ok:
-                        return (classify(cfg, o, got, [rest[:a]]), "%s returned %r, body from cursor is %r" % (where, got, rest[:40]))
+                        return (classify(cfg, o, got, [rest[:a]], neg), "%s returned %r, body from cursor is %r" % (where, got, rest[:40]))
                     s.cur += len(got)
                     continue
                 acc = [want]
@@ -623,7 +624,7 @@ def oracle_history(cfg, hist, final_check=True):
             acc = spec_step(ss, i, o, a)
         if o == "post" and isinstance(acc[0], bytes):
             if got == DISC or not isinstance(got, list):
-                return (classify(cfg, o, got, acc), "%s gave %r, expected the form fields of the %d-byte body" % (where, got, len(acc[0])))
+                return (classify(cfg, o, got, acc, neg), "%s gave %r, expected the form fields of the %d-byte body" % (where, got, len(acc[0])))
             if is_ascii_form(acc[0]) and got != ref_form(acc[0]):
                 return ("post:wrong-fields", "%s parsed %r, the body %r holds %r" % (where, got, acc[0][:60], ref_form(acc[0])))
             ok = True
@@ -635,7 +636,7 @@ def oracle_history(cfg, hist, final_check=True):
             ok = spec_resolve(ss, i, o, a, acc, got)
         if not ok:
             exp = acc[0]
-            return (classify(cfg, o, got, acc), "%s returned %s, expected %s" % (
+            return (classify(cfg, o, got, acc, neg), "%s returned %s, expected %s" % (
                 where, short_repr(got), short_repr(exp)))
         # ---- CONTENT_LENGTH tells the truth about a held body
         s = ss[i]
@@ -800,8 +801,8 @@ def run(ctx):
 
     # ---- correspondence: model vs implementation on histories of access paths
     rng = ctx.sub_rng("corr")
-    groups = [("histories", corr_cases(ctx, rng, ctx.scale(700, 6000), 48, ctx.scale(9, 14)), 400),
-              ("buffer-and-chunk-boundaries", corr_big_cases(ctx.sub_rng("corr-big"), ctx.scale(14, 60)), 1)]
+    groups = [("histories", corr_cases(ctx, rng, ctx.scale(2000, 12000), 48, ctx.scale(9, 14)), 250),
+              ("buffer-and-chunk-boundaries", corr_big_cases(ctx.sub_rng("corr-big"), ctx.scale(20, 80)), 1)]
     for name, cases, shard in groups:
         bad = ctx.corr(name, IMPORTS, FN, cases, in_type=IN_TYPE, shard=shard)
         for i in bad[:6]:
@@ -815,22 +816,31 @@ def run(ctx):
 
     # ---- oracle 1: every history to a fixed depth over the access paths, on the original and its first copy
     U = exhaustive_universe()
-    depth = ctx.scale(3, 4)
     cfgs = exhaustive_cfgs(ctx.thorough)
     cnt = 0
+    deep = 0
     for ci, cfg in enumerate(cfgs):
-        d_here = depth if (not ctx.thorough or ci % 3 == 0) else 3
+        # quick: depth 3 everywhere, depth 4 on the declared-length configurations with a small temp-file limit and
+        # on the terminated input; thorough: depth 4 everywhere, depth 5 on two
+        if ctx.thorough:
+            d_here = 5 if (cfg["cl"] == "10" and cfg["limit"] == 2 and not cfg["seekable"] and cfg["term"] is None) or \
+                (cfg["cl"] is None and cfg["term"] and cfg["limit"] == 2) else 4
+        else:
+            d_here = 4 if (cfg["cl"] == "10" and cfg["limit"] == 2 and not cfg["seekable"]) or \
+                (cfg["cl"] is None and cfg["term"]) else 3
+        deep = max(deep, d_here)
         for d in range(1, d_here + 1):
             for hist in itertools.product(U, repeat=d):
                 cnt += 1
-                res = oracle_history(cfg, list(hist))
+                res = oracle_history(cfg, list(hist), final_check=(d < 5))
                 if res:
                     report(ctx, res, cfg, list(hist), "exhaustive")
+    depth = deep
     ctx.oracle_count("exhaustive", cnt, cnt)
 
     # ---- oracle 2: random histories incl. text/json setters and the other file methods of body_file
     r2 = ctx.sub_rng("oracle-random")
-    m = ctx.scale(12000, 250000)
+    m = ctx.scale(60000, 1200000)
     for _ in range(m):
         cfg = rand_cfg(r2, 70)
         if cfg["seekable"]:
@@ -845,7 +855,7 @@ def run(ctx):
 
     # ---- oracle 3: bodies around the buffer size and the 65535 copy step, limits below/at/above
     r3 = ctx.sub_rng("oracle-big")
-    m = ctx.scale(500, 6000)
+    m = ctx.scale(1500, 20000)
     for cfg, hist in big_cases(r3, m):
         res = oracle_history(cfg, hist)
         if res:
@@ -854,7 +864,7 @@ def run(ctx):
 
     # ---- oracle 4: inputs flagged seekable whose length differs from CONTENT_LENGTH (.body / .copy())
     r4 = ctx.sub_rng("oracle-seekable")
-    m = ctx.scale(400, 4000)
+    m = ctx.scale(2000, 40000)
     for cfg in seekable_any_cfgs(r4, m):
         res = oracle_seekable_any(cfg)
         if res:
